@@ -17,7 +17,12 @@ Tie-break rules encoded (property statement + DESIGN 4/C01):
     (not inside nested functions/classes) binds an instance attribute on the class, same tie-break rules;
   * functions decorated with typing.overload bind nothing by themselves (they are attached to the implementation that
     follows; the generator only emits complete groups);
-  * a function whose decorators resolve to a property-labelled decorator is bound as an attribute.
+  * a function whose decorators resolve to a property-labelled decorator is bound as an attribute;
+  * `@x.setter` / `@x.deleter def x` over an existing property `x`: either definition may represent the attribute;
+  * `while` and `match` are not among the blocks the property names: whatever is bound inside them may or may not be
+    extracted (names are "tainted": absence, or any of the bindings of that name, is accepted);
+  * `exports` are those of the surviving `__all__` binding (a conditional re-assignment that does not displace the existing
+    `__all__` attribute does not change them), extended by later unconditional `__all__ += [...]`.
 """
 
 from __future__ import annotations
@@ -60,6 +65,7 @@ class Cand:
     via_init: ast.AST | None = None  # the __init__ def this instance attribute comes from
     has_value: bool = True
     nest: int = 0  # number of compound statements between the scope (or __init__) body and the statement
+    is_setter: bool = False  # `@name.setter` / `@name.deleter` definition over an existing property
 
     @property
     def span(self) -> tuple[int, int]:
@@ -129,6 +135,7 @@ class Binder:
         self.tree = ast.parse(text)
         self.modname = modname
         self.is_init = is_init
+        self._open = 0  # >0 while inside a while / match block (blocks the property does not name)
         self.root = Scope("module", modname, self.tree, doc=literal_doc(self.tree.body))
         self.block(self.root, self.tree.body, [], False)
         self._finish(self.root)
@@ -137,6 +144,8 @@ class Binder:
     def bind(self, scope: Scope, c: Cand) -> None:
         cur = scope.state.get(c.name)
         scope.history.setdefault(c.name, []).append(c)
+        if self._open:
+            scope.tainted.add(c.name)  # bound inside while/match: the statement does not say whether it is extracted
         if not cur:
             scope.state[c.name] = [c]
             return
@@ -198,6 +207,21 @@ class Binder:
                 labels |= LABEL_TABLE.get(path, set())
         return labels, overload
 
+    def setter_over_property(self, scope: Scope, node) -> bool:
+        """`node` carries `@<its own name>.setter|deleter|getter` and every acceptable current binding of that name in this
+        very scope is a property (or an earlier setter of it)."""
+        hit = False
+        for d in node.decorator_list:
+            name = dotted(d.func if isinstance(d, ast.Call) else d)
+            if name in (f"{node.name}.setter", f"{node.name}.deleter", f"{node.name}.getter"):
+                hit = True
+        if not hit:
+            return False
+        cands = scope.state.get(node.name)
+        if not cands:
+            return False
+        return all(c is not None and c.kind == "attribute" and (c.is_setter or (c.labels is not None and "property" in c.labels)) for c in cands)
+
     # ------------------------------------------------------------------ walk
     def block(self, scope: Scope, stmts: list, path: list, guarded) -> None:
         for i, st in enumerate(stmts):
@@ -211,7 +235,13 @@ class Binder:
         return None
 
     def stmt(self, scope: Scope, st: ast.stmt, nxt, path: list, guarded) -> None:
-        if isinstance(st, (ast.FunctionDef, ast.AsyncFunctionDef)):
+        if isinstance(st, (ast.FunctionDef, ast.AsyncFunctionDef)) and self.setter_over_property(scope, st):
+            # `@x.setter def x` over an existing property: Python re-binds x to the extended property, the statement is
+            # silent about which definition represents it: either
+            c = Cand(st.name, "attribute", st, "either", guarded, doc=literal_doc(st.body), labels=None,
+                     is_async=isinstance(st, ast.AsyncFunctionDef), nest=len(path), is_setter=True)
+            self.bind(scope, c)
+        elif isinstance(st, (ast.FunctionDef, ast.AsyncFunctionDef)):
             labels, overload = self.dec_info(scope, st)
             if overload is None:
                 # a decorator name cannot be resolved from the text alone: kind (function / property attribute / overload
@@ -236,7 +266,9 @@ class Binder:
             child = Scope("class", f"{scope.path}.{st.name}", st, parent=scope, doc=literal_doc(st.body))
             c = Cand(st.name, "class", st, "wins", guarded, doc=child.doc, labels=labels, child=child, nest=len(path))
             self.bind(scope, c)
+            saved, self._open = self._open, 0
             self.block(child, st.body, [], guarded)
+            self._open = saved
         elif isinstance(st, ast.Assign):
             names = self.assign_names(st.targets)
             for n in names:
@@ -262,7 +294,7 @@ class Binder:
                     name, target = a.asname, a.name
                 else:
                     name = target = a.name.split(".", 1)[0]
-                scope.imports[name] = target
+                scope.imports[name] = None if self._open else target
                 self.bind(scope, Cand(name, "alias", st, "wins", guarded, target=target, nest=len(path)))
         elif isinstance(st, ast.ImportFrom):
             base = self.import_base(st)
@@ -283,7 +315,7 @@ class Binder:
                     scope.tainted.add(name)
                     scope.imports[name] = None
                     continue
-                scope.imports[name] = target
+                scope.imports[name] = None if self._open else target
                 self.bind(scope, Cand(name, "alias", st, "wins", guarded, target=target, nest=len(path)))
         elif isinstance(st, ast.If):
             body_guard = guarded
@@ -299,10 +331,19 @@ class Binder:
                 self.block(scope, h.body, path + ["except.body"], guarded)
             self.block(scope, st.orelse, path + ["try.orelse"], guarded)
             self.block(scope, st.finalbody, path + ["try.final"], guarded)
-        elif isinstance(st, (ast.For, ast.AsyncFor, ast.While)):
-            tag = "for" if not isinstance(st, ast.While) else "while"
-            self.block(scope, st.body, path + [f"{tag}.body"], guarded)
-            self.block(scope, st.orelse, path + [f"{tag}.orelse"], guarded)
+        elif isinstance(st, (ast.For, ast.AsyncFor)):
+            self.block(scope, st.body, path + ["for.body"], guarded)
+            self.block(scope, st.orelse, path + ["for.orelse"], guarded)
+        elif isinstance(st, ast.While):
+            self._open += 1
+            self.block(scope, st.body, path + ["while.body"], guarded)
+            self.block(scope, st.orelse, path + ["while.orelse"], guarded)
+            self._open -= 1
+        elif isinstance(st, ast.Match):
+            self._open += 1
+            for case in st.cases:
+                self.block(scope, case.body, path + ["match.case"], guarded)
+            self._open -= 1
         elif isinstance(st, (ast.With, ast.AsyncWith)):
             self.block(scope, st.body, path + ["with.body"], guarded)
         # every other statement binds nothing the property speaks about
@@ -357,12 +398,13 @@ class Binder:
         return UNKNOWN
 
     def set_exports(self, scope: Scope, st, mode: str) -> None:
-        if mode != "wins" and scope.exports is not None:
-            scope.exports = UNKNOWN
+        """Exports are those of the `__all__` binding that survives (called right after the binding was applied)."""
+        cands = scope.state.get("__all__", [])
+        if self._open or len(cands) != 1 or cands[0] is None:
+            scope.exports = UNKNOWN  # the text leaves the surviving binding open
             return
-        if mode == "either" or len(scope.state.get("__all__", [])) != 1:
-            scope.exports = UNKNOWN
-            return
+        if cands[0].node is not st:
+            return  # conditional re-assignment that did not displace the existing attribute: exports unchanged
         scope.exports = self.all_items(st.value)
 
     # ------------------------------------------------------------------ __init__ bodies
